@@ -64,8 +64,15 @@ def _impl_worker(args):
 
 
 def _safe_impl(mod, case):
+    limit = float(os.environ.get("VERIF_CASE_TIMEOUT") or getattr(mod, "CASE_TIMEOUT", 20))
     try:
-        return call_limited(mod.run_impl, getattr(mod, "CASE_TIMEOUT", 20), case)
+        return call_limited(mod.run_impl, limit, case)
+    except Hang:
+        pass
+    # A wall-clock watchdog can fire on a starved machine; a real hang hangs again.  Retry once with a
+    # much longer limit before calling it a hang.
+    try:
+        return call_limited(mod.run_impl, max(120.0, 5 * limit), case)
     except Hang:
         return {"harness_exc": "Hang"}
     except BaseException as e:  # run_impl is expected to canonicalise; this is a harness-level escape
